@@ -28,6 +28,8 @@ type CallResult struct {
 	ErrK  string
 	Msgs  []PubSubMessage
 	Notes []string
+	KV    map[string]Res    // multi-key helpers returning values
+	KErr  map[string]string // multi-key helpers returning errors ("" = nil)
 }
 
 // execCall performs one API call described by cs on client cl.
@@ -201,6 +203,9 @@ type runHooks struct {
 	afterMain    func(e *env)
 	onStuck      func(e *env) // called when the workload phase ended without all calls returning, before healing
 	newClientRetries int       // NewClient is retried this many times (scenarios that make connection setup fail)
+	noDefaultNode    bool      // the scenario builds its own servers in beforeClient (cluster, sentinel)
+	newClient        func(e *env, i int) (Client, error) // replaces NewClient(e.clientOption())
+	execOverride     func(e *env, cl Client, cs CallSpec, ctx context.Context, rec *sched.CallRec) *CallResult
 }
 
 func (e *env) stdGhost(g GhostSpec) func(*sched.Sim) {
@@ -225,11 +230,13 @@ func standardRun(t *testing.T, seed uint64, p *Plan, out *Outcome, h runHooks) *
 	}
 	e := newEnv(seed, p, out)
 	s := e.sim
-	n := s.W.AddNode(e.addr)
-	if p.Srv.Version != "" {
-		n.Version = p.Srv.Version
+	if !h.noDefaultNode {
+		n := s.W.AddNode(e.addr)
+		if p.Srv.Version != "" {
+			n.Version = p.Srv.Version
+		}
+		n.NoHello = p.Srv.NoHello
 	}
-	n.NoHello = p.Srv.NoHello
 	if h.beforeClient != nil {
 		h.beforeClient(e)
 	}
@@ -243,9 +250,15 @@ func standardRun(t *testing.T, seed uint64, p *Plan, out *Outcome, h runHooks) *
 	defer func() { s.Cfg.W.Tick = tickW }()
 	rr := e.background("setup", func(ctx context.Context) {
 		for i := 0; i < nc; i++ {
-			cl, err := NewClient(e.clientOption())
+			mk := func() (Client, error) {
+				if h.newClient != nil {
+					return h.newClient(e, i)
+				}
+				return NewClient(e.clientOption())
+			}
+			cl, err := mk()
 			for try := 0; err != nil && try < h.newClientRetries; try++ {
-				cl, err = NewClient(e.clientOption())
+				cl, err = mk()
 			}
 			if err != nil {
 				setupErr = err
